@@ -103,6 +103,7 @@ def parseOp (t : String) : Option Op :=
   | ["pipe"] => some .pipe
   | ["nb", fd] => do pure (.nb (← fd.toNat?))
   | ["rlim"] => some .rlim
+  | ["tmp"] => some .tmp
   | ["fill", fd] => do pure (.fill (← fd.toNat?))
   | ["sel", fd, d] => do pure (.sel (← fd.toNat?) (d == "w"))
   | _ => none
@@ -126,6 +127,7 @@ def showObs (op : Op) : Obs → String
   | .path p => "=" ++ showPath p
   | .access rd wr => if rd && wr then "=rw" else if wr then "=w" else "=r"
   | .full => "full"
+  | .anon n => s!"=tmp:{n}"
 
 /-- distinct bound paths (newest binding wins), without the root and the standard files -/
 def treePaths (t : Tree) : List Path :=
